@@ -1,4 +1,5 @@
 ---- MODULE Retry_c09_quick ----
 EXTENDS RetryMC
 MyInit == InitC09(2)
+LiveSpec == MyInit /\ [][Next]_vars /\ WF_vars(Next)
 ====
